@@ -28,3 +28,7 @@ PENDING = {
     f"C{n:02d}": "check under construction in this round (see DESIGN.md section 10); not yet claimed"
     for n in range(1, 21) if n != 12
 }
+
+_p("C05", "other",
+   "Static necessary conditions of 'let substitution preserves meaning in the chosen environment': every IR position that can hold a Constant is visited/resolved by LetFiller or RegisterVisitor; the override lookup, keyed by the constant's name, dominates the declared-value return (CFG); per-field information-flow necessity for everything the pass must preserve; IR-constructor arguments that must be objects never receive an S-expression from a visit handler; Parameter objects are not resolved like constants. Decides those clauses for all programs and override dictionaries; does not decide equality of meaning.")
+PENDING.pop("C04", None); PENDING.pop("C05", None)
